@@ -3,6 +3,7 @@
    [set_at] vs structural descent, one-step agreement of [getitem] with [rfc_step]
    for standard pointers, and the refinement of each single patch operation. *)
 From JP Require Import Base Json PyStr Pointer Patch Rfc6901 Rfc6902 Edit PointerDomain PatchCorr.
+From JP Require PyStrLemmas.
 
 Local Open Scope Z_scope.
 
@@ -906,4 +907,98 @@ Proof.
     cbv beta in E. rewrite E. apply (apply_add_snoc_noarr AddStd).
     + eapply std_parent_snoc; eauto.
     + eapply parent_not_array_eval; eauto.
+Qed.
+
+(* ---------------------------------------------------------------------- *)
+(* An index kept as a string token (a pointer built from parts): the canonical spelling of
+   len(parent) appends exactly like the int, and like RFC 6902 says. *)
+
+Lemma getitem_len_int l xs :
+  getitem (RNode l (JArr xs)) (PInt (Z.of_nat (length xs))) = Err (EPointer KPtrIndex).
+Proof. unfold getitem. cbn [rv_json]. rewrite py_list_index_beyond by lia. reflexivity. Qed.
+
+Lemma getitem_len_str l xs :
+  getitem (RNode l (JArr xs)) (PStr (str_of_Z (Z.of_nat (length xs)))) = Err (EPointer KPtrIndex).
+Proof.
+  set (n := Z.of_nat (length xs)). assert (Hn : 0 <= n) by (unfold n; lia).
+  pose proof (PyStrLemmas.canonical_str_of_Z n Hn) as Hcan.
+  pose proof (PyStrLemmas.dec_value_str_of_Z n Hn) as Hval.
+  set (s := str_of_Z n) in *.
+  assert (Hhead : exists c r, s = c :: r /\ is_ascii_digit c = true).
+  { destruct s as [|c [|c' r]]; cbn in Hcan; [discriminate|eauto|].
+    apply andb_true_iff in Hcan as [Hc _]. apply andb_true_iff in Hc as [Hc _]. eauto. }
+  destruct Hhead as [c [r [Es Hc]]].
+  unfold getitem. cbn [rv_json].
+  assert (Hdash : ustr_eqb s [ch_minus] = false).
+  { apply ustr_eqb_neq. rewrite Es. intros E. injection E as -> _. discriminate. }
+  assert (Hhash : starts_with_ch ch_hash s = false).
+  { rewrite Es. cbn. apply N.eqb_neq. intros ->. discriminate. }
+  rewrite Hdash, Hhash.
+  assert (Hidx : index_of_text s = Ok (PInt n) \/ index_of_text s = Err (EPointer KPtrIndex)).
+  { unfold index_of_text.
+    destruct (Nat.ltb 1 (length s) && starts_with_ch ch_0 s) eqn:H0.
+    { rewrite (leading_zero_not_canonical _ H0) in Hcan. discriminate. }
+    rewrite (canonical_re _ Hcan). cbn [negb].
+    assert (Hm : starts_with_ch ch_minus s = false).
+    { rewrite Es. cbn. apply digit_not_minus. exact Hc. }
+    destruct (re_nominus_canonical s (canonical_re _ Hcan) Hm) as [_ Hint]. rewrite Hint, Hval.
+    destruct (Z.ltb n min_int_index || Z.ltb max_int_index n); auto. }
+  destruct Hidx as [-> | ->]; cbn [bind]; [|reflexivity].
+  rewrite py_list_index_beyond by (unfold n; lia). reflexivity.
+Qed.
+
+Lemma add_len_token p d l xs v (x : ppart) :
+  reduce_getitem (RNode [] d) p = Ok (RNode l (JArr xs)) ->
+  x = PInt (Z.of_nat (length xs)) \/ x = PStr (str_of_Z (Z.of_nat (length xs))) ->
+  apply_add AddStd (p ++ [x]) v d = Ok (set_at d l (JArr (xs ++ [v]))).
+Proof.
+  intros Hp Hx. unfold apply_add. rewrite resolve_parent_snoc, Hp. cbn [bind]. unfold lastres.
+  assert (Hg : getitem (RNode l (JArr xs)) x = Err (EPointer KPtrIndex)).
+  { destruct Hx as [-> | ->]; [apply getitem_len_int|apply getitem_len_str]. }
+  rewrite Hg. cbn [bind]. rewrite last_part_snoc. cbn [bind with_parent].
+  destruct Hx as [-> | ->].
+  - cbn. rewrite Z.eqb_refl. reflexivity.
+  - cbn [orb]. rewrite ustr_eqb_refl, orb_true_r. reflexivity.
+Qed.
+
+(* the point of the fix: the string token spelling len(parent) behaves as the int *)
+Theorem add_len_string_as_int p d l xs v :
+  reduce_getitem (RNode [] d) p = Ok (RNode l (JArr xs)) ->
+  apply_add AddStd (p ++ [PStr (str_of_Z (Z.of_nat (length xs)))]) v d =
+  apply_add AddStd (p ++ [PInt (Z.of_nat (length xs))]) v d.
+Proof.
+  intros Hp. rewrite (add_len_token p d l xs v _ Hp (or_intror eq_refl)).
+  rewrite (add_len_token p d l xs v _ Hp (or_introl eq_refl)). reflexivity.
+Qed.
+
+(* and on the domain of the C05 / C15 theorems nothing changes: a standard pointer never holds an
+   index as a string token *)
+Lemma normal_str_not_len s n : normal_part (PStr s) -> ustr_eqb s (str_of_Z (Z.of_nat n)) = false.
+Proof.
+  intros Hn. apply ustr_eqb_neq. intros ->. pose proof (normal_str _ Hn) as Ha.
+  unfold array_index in Ha. rewrite (PyStrLemmas.canonical_str_of_Z (Z.of_nat n)) in Ha by lia. discriminate.
+Qed.
+
+(* the new behaviour is what RFC 6902 says for that token: "len" as an index token appends *)
+Lemma rfc_add_len_token xs v :
+  rfc_add [str_of_Z (Z.of_nat (length xs))] v (JArr xs) = Some (JArr (xs ++ [v])).
+Proof.
+  set (n := Z.of_nat (length xs)). assert (Hn : 0 <= n) by (unfold n; lia).
+  assert (Hai : array_index (str_of_Z n) = Some n).
+  { unfold array_index. rewrite (PyStrLemmas.canonical_str_of_Z n Hn), (PyStrLemmas.dec_value_str_of_Z n Hn). reflexivity. }
+  cbn [rfc_add]. rewrite (insert_index_num xs _ n Hai). unfold n. rewrite Z.leb_refl, Nat2Z.id. cbv beta iota.
+  rewrite elem_insert_ok by lia. rewrite list_insert_nat_end. reflexivity.
+Qed.
+
+Theorem add_len_string_rfc p d l xs v :
+  std_pointer p -> rfc_eval_from [] d (tokens p) = Some (l, JArr xs) ->
+  let x := PStr (str_of_Z (Z.of_nat (length xs))) in
+  exists d', apply_add AddStd (p ++ [x]) v d = Ok d' /\ rfc_add (tokens (p ++ [x])) v d = Some d'.
+Proof.
+  intros Hp He x. pose proof (reduce_std p Hp [] d) as Hr. rewrite He in Hr.
+  exists (set_at d l (JArr (xs ++ [v]))). split.
+  - apply (add_len_token p d l xs v x Hr). right. reflexivity.
+  - rewrite tokens_snoc.
+    pose proof (descent _ (rfc_add_descends v) (tokens p) (part_text x) d) as E. cbv beta in E.
+    rewrite E, He. cbn [part_text x]. unfold x. cbn [part_text]. rewrite rfc_add_len_token. reflexivity.
 Qed.
